@@ -8,6 +8,9 @@ import (
 	"os"
 	"sort"
 	"sync"
+	"time"
+
+	"github.com/la5nta/wl2k-go/fbb"
 
 	"verifharness/internal/rec"
 )
@@ -694,4 +697,169 @@ func bytesIndexFrame(stream []byte) int {
 		}
 	}
 	return -1
+}
+
+// ---------------------------------------------------------------------------------------------
+// C17: status reporting under paced transports (run with the race detector).
+
+type statusRec struct {
+	side string
+	r    *Recorder
+}
+
+func (s statusRec) UpdateStatus(st fbb.Status) {
+	dir, p := "send", st.Sending
+	if st.Receiving != nil {
+		dir, p = "recv", st.Receiving
+	}
+	mid, csize := "", -1
+	if p != nil {
+		mid, csize = p.MID(), p.CompressedSize()
+	}
+	if st.Sending != nil && st.Receiving != nil {
+		dir = "both"
+	}
+	s.r.Add(rec.Event{"op": "Status", "side": s.side, "dir": dir, "mid": mid, "transferred": st.BytesTransferred, "total": st.BytesTotal,
+		"done": st.Done, "pcsize": csize})
+}
+
+// txEnd wraps a link end as a transport with a transmit buffer and Flush.
+type txEnd struct {
+	*End
+	mu      sync.Mutex
+	pending int
+}
+
+func (t *txEnd) Write(p []byte) (int, error) {
+	n, err := t.End.Write(p)
+	t.mu.Lock()
+	t.pending = len(p) / 2
+	t.mu.Unlock()
+	return n, err
+}
+func (t *txEnd) TxBufferLen() int { t.mu.Lock(); defer t.mu.Unlock(); return t.pending }
+func (t *txEnd) Flush() error {
+	time.Sleep(5 * time.Millisecond)
+	t.mu.Lock()
+	t.pending = 0
+	t.mu.Unlock()
+	return nil
+}
+
+// MainC17 is the "b2f-c17" subcommand.
+func MainC17(args []string) int {
+	fs := flag.NewFlagSet("b2f-c17", flag.ExitOnError)
+	out := fs.String("out", "", "trace ndjson")
+	n := fs.Int("n", 24, "paced sessions")
+	workers := fs.Int("workers", 8, "parallel sessions")
+	fs.Parse(args)
+	rng := rand.New(rand.NewSource(rec.Seed()))
+	type cfg struct {
+		sc    *Scenario
+		delay time.Duration
+		tx    bool
+	}
+	var cfgs []cfg
+	for i := 0; i < *n; i++ {
+		sc := GenScenario(rng, i+1, 1+rng.Intn(2), rng.Intn(2), map[string]int{"+": 1}, false)
+		sc.Sched, sc.Seg = "free", []string{"all", "rand"}[rng.Intn(2)]
+		c := cfg{sc: sc, tx: i%2 == 0}
+		switch i % 4 {
+		case 0: // no delay, small messages
+		case 1: // one medium message, several ticks inside the transfer
+			sc.Msgs["A"] = sc.Msgs["A"][:1]
+			sc.Msgs["A"][0].Size = "medium"
+			c.delay = 25 * time.Millisecond
+		case 2: // per-write delay longer than the reporting period
+			sc.Msgs["A"] = sc.Msgs["A"][:1]
+			sc.Msgs["A"][0].Size, sc.Msgs["A"][0].Att = "small", 0
+			sc.Msgs["B"] = nil
+			c.delay = 300 * time.Millisecond
+		case 3: // a large message with a small delay: many chunks, a few ticks
+			sc.Msgs["A"][0].Size = "large"
+			sc.Msgs["A"] = sc.Msgs["A"][:1]
+			sc.Msgs["B"] = nil
+			c.delay = 500 * time.Microsecond
+		}
+		cfgs = append(cfgs, c)
+	}
+	results := make([][]rec.Event, len(cfgs))
+	var wg sync.WaitGroup
+	ch := make(chan int)
+	for w := 0; w < *workers; w++ {
+		wg.Add(1)
+		go func() {
+			defer wg.Done()
+			for i := range ch {
+				c := cfgs[i]
+				r := &Recorder{}
+				st := Setup(c.sc, r)
+				upd := map[string]fbb.StatusUpdater{"A": statusRec{"A", r}, "B": statusRec{"B", r}}
+				RunSessionOpts(c.sc, st, r, func(l *Link) { l.WriteDelay = c.delay }, upd, c.tx)
+				time.Sleep(600 * time.Millisecond) // the final reports are delivered by goroutines that may outlive Exchange
+				evs := r.Events()
+				// project: wire csize per MID, transferred messages per side
+				csize := map[string]int{}
+				var sent, received [][]string
+				for _, e := range evs {
+					if e["op"] == "Unit" && e["kind"] == "Prop" {
+						csize[e["mid"].(string)] = e["csize"].(int)
+					}
+					if e["op"] == "Unit" && e["kind"] == "Frame" {
+						_ = e
+					}
+					if e["op"] == "SetSent" && e["rej"] == false {
+						sent = append(sent, []string{e["s"].(string), e["m"].(string)})
+					}
+					if e["op"] == "Store" && e["err"] == false {
+						received = append(received, []string{e["s"].(string), e["m"].(string)})
+					}
+				}
+				var outEvs []rec.Event
+				for _, e := range evs {
+					if e["op"] == "Status" {
+						c, ok := csize[e["mid"].(string)]
+						if !ok {
+							c = -2
+						}
+						e["csize"] = c
+						outEvs = append(outEvs, e)
+					}
+				}
+				if sent == nil {
+					sent = [][]string{}
+				}
+				if received == nil {
+					received = [][]string{}
+				}
+				outEvs = append(outEvs, rec.Event{"op": "End", "sent": sent, "received": received})
+				results[i] = outEvs
+			}
+		}()
+	}
+	for i := range cfgs {
+		ch <- i
+	}
+	close(ch)
+	wg.Wait()
+	w, err := rec.NewWriter(*out)
+	if err != nil {
+		fmt.Fprintln(os.Stderr, err)
+		return 2
+	}
+	defer w.Close()
+	reports, mid := 0, 0
+	for i, evs := range results {
+		w.Write(map[string]interface{}{"delay_ms": int(cfgs[i].delay / time.Millisecond), "tx": cfgs[i].tx}, evs)
+		for _, e := range evs {
+			if e["op"] == "Status" {
+				reports++
+				if e["done"] == false && e["transferred"].(int) > 0 && e["transferred"].(int) < e["total"].(int) {
+					mid++
+				}
+			}
+		}
+	}
+	fmt.Printf("{\"traces\":%d,\"reports\":%d,\"mid_transfer_reports\":%d}\n", len(results), reports, mid)
+	return 0
 }
